@@ -64,6 +64,23 @@ struct Mk<'S'> {
   static auto make(int k) { return dispenso::stage(Sink{k}, g.limit[k]); }
 };
 
+template <>
+struct Mk<'c'> {
+  static auto make(int k) { return SinkCR{k}; }
+};
+template <>
+struct Mk<'C'> {
+  static auto make(int k) { return dispenso::stage(SinkCR{k}, g.limit[k]); }
+};
+template <>
+struct Mk<'w'> {
+  static auto make(int k) { return XValRR{k}; }
+};
+template <>
+struct Mk<'W'> {
+  static auto make(int k) { return dispenso::stage(XValRR{k}, g.limit[k]); }
+};
+
 template <char... Cs, size_t... Is>
 static void runCodesImpl(dispenso::ThreadPool& pool, std::index_sequence<Is...>) {
   dispenso::pipeline(pool, Mk<Cs>::make(static_cast<int>(Is))...);
